@@ -25,7 +25,15 @@ pub fn check_case(ctx: &Ctx, stream: &str, idx: u64, label: &str, cfg: &WCfg, en
     let bytes = if use_finish {
         // finish() on a writer over a shared buffer sink
         let r = guarded(|| -> Result<Vec<u8>, String> {
-            let (sink, shared) = crate::io_mon::MonSink::new("sink", crate::io_mon::SplitState::full(), None);
+            // half of these sinks accept writes only partially or interrupt them (C11 compares the
+            // byte streams; here the file must still round-trip)
+            let h = gen::case_hash(cfg, entries);
+            let split = match h % 4 {
+                0 => crate::io_mon::Split::Rand,
+                1 => crate::io_mon::Split::Chaos,
+                _ => crate::io_mon::Split::Full,
+            };
+            let (sink, shared) = crate::io_mon::MonSink::new("sink", crate::io_mon::SplitState::new(split, h), None);
             let mut w = cfg.builder().build(sink);
             for (k, v) in entries {
                 w.insert(k, v).map_err(|e| format!("insert io error: {}", e))?;
